@@ -101,7 +101,7 @@ class ImplementationClassUIDSubItem(object):
 
         :return: item length
         """
-        return len(self.implementation_class_uid)
+        return len(self.implementation_class_uid.encode())
 
     @property
     def total_length(self):
@@ -162,7 +162,7 @@ class ImplementationVersionNameSubItem(object):
 
         :return: item length
         """
-        return len(self.implementation_version_name)
+        return len(self.implementation_version_name.encode())
 
     @property
     def total_length(self):
@@ -292,7 +292,7 @@ class ScpScuRoleSelectionSubItem(object):
 
         :return: item length
         """
-        return 4 + len(self.sop_class_uid)
+        return 4 + len(self.sop_class_uid.encode())
 
     @property
     def total_length(self):
@@ -309,7 +309,7 @@ class ScpScuRoleSelectionSubItem(object):
         """
         return b''.join(
             [self.header.pack(self.item_type, self.reserved, self.item_length,
-                              len(self.sop_class_uid)),
+                              len(self.sop_class_uid.encode())),
              self.sop_class_uid.encode(),
              struct.pack('B B', self.scu_role, self.scp_role)])
 
@@ -355,7 +355,7 @@ class SOPClassExtendedNegotiationSubItem(object):
 
         :return: item length
         """
-        return 2 + len(self.sop_class_uid) + len(self.app_info)
+        return 2 + len(self.sop_class_uid.encode()) + len(self.app_info)
 
     @property
     def total_length(self):
@@ -372,7 +372,7 @@ class SOPClassExtendedNegotiationSubItem(object):
         """
         return b''.join(
             [self.header.pack(self.item_type, self.reserved, self.item_length,
-                              len(self.sop_class_uid)),
+                              len(self.sop_class_uid.encode())),
              self.sop_class_uid.encode(),
              self.app_info])
 
